@@ -15,7 +15,7 @@ RULE = (
     "check_partials} on each stateful component in fwd and rev mode, pruned on a digest of every number reachable from the component "
     "(attributes, caches, LU factors, Jacobian storage, vectors, module-level arrays), to closure or the depth bound; group level: ALL "
     "histories with at most k deviations (inserted operations) from the optimiser pattern goto,tot,goto,tot,goto,tot on AeroPoint / "
-    "AerostructPoint models; after every history each probe (read outputs, totals, re-run then read, re-run then totals) must equal a "
+    "AerostructPoint models; for EVERY model and EVERY input the history [goto P0, totals, change ONLY that input to its P1/P2 value, totals]; after every history each probe (read outputs, totals, re-run then read, re-run then totals) must equal a "
     "fresh problem evaluated once at the current point; non-trivial = distinct state digests"
 )
 ASSUMPTIONS = [
